@@ -134,6 +134,7 @@ def v3(atoms, bonds, counts=None):
 
 pipeline("v3000:plain", v3(["C 0 0 0 0", "O 1 0 0 0", "H 0 1 0 0"], ["1 1 2", "1 1 3"]))
 pipeline("v3000:attrs", v3(["C 0 0 0 0 CHG=-1 MASS=13", "N 1 0 0 0 RAD=2 CHG=1", "D 0 1 0 0", "T 0 2 0 0 MASS=5", "Cl 2 0 0 0 CHG=0 RAD=0 MASS=0"], ["1 1 2", "2 1 3", "1 1 4", "1 2 5"]))
+pipeline("v3000:repeated", v3(["C 0 0 0 0 CHG=0 CHG=1 MASS=13 MASS=0", "N 1 0 0 0 RAD=2 RAD=0 CHG=1 CHG=-1", "O 2 0 0 0 MASS=17 MASS=18"], ["1 1 2", "1 2 3"]))
 pipeline("v3000:nobonds", v3(["He 0 0 0 0 MASS=3"], []))
 pipeline("v3000:star", v3(["C 0 0 0 0", "C 1 0 0 0", "C 2 0 0 0", "* 1 1 0 0", "Fe 1 2 0 0"], ["1 1 2", "2 2 3", "9 5 4 ENDPTS=(3 1 2 3) ATTACH=ALL"]))
 pipeline("v3000:star-first", v3(["Fe 0 0 0 0", "C 1 0 0 0", "C 2 0 0 0", "* 1 1 0 0"], ["1 2 3", "9 4 1 ENDPTS=(2 2 3)"]))
